@@ -78,6 +78,12 @@ def run_property(pid, tier, seed, relock=False, verbose=False):
 
     def build():
         return prog, db
+    # lock value = '<hash of the VC text>|<back end that discharged it>' (older entries: 'P' or the bare hash)
+    pref = (pid + ':') if P.get('kinds') else ''
+    hints = {}
+    for k, v in lock.items():
+        if isinstance(v, str) and '|' in v and k.startswith(pref) and (pref or ':' not in k.split('/')[0]):
+            hints[k[len(pref):]] = v.split('|', 1)[1]
     tasks = []
     for q in P['functions']:
         if q not in db.contracts:
@@ -88,7 +94,7 @@ def run_property(pid, tier, seed, relock=False, verbose=False):
                 flt = (P.get('case_filter') or {}).get(q)
                 if flt and any(case.get(k2) != v2 for k2, v2 in flt.items()):
                     continue
-                tasks.append((q, ci, {'timeout': timeout, 'retry': retry, 'seed': seed % 1000, 'procs': 8, 'case': case, 'kinds': P.get('kinds'), 'want_hash': relock}))
+                tasks.append((q, ci, {'timeout': timeout, 'retry': retry, 'seed': seed % 1000, 'procs': 8, 'case': case, 'kinds': P.get('kinds'), 'want_hash': relock, 'hints': None if relock else hints}))
     for out in isolate.run(tasks, build, jobs=5):
         q = out['q']
         if out.get('error'):
@@ -106,7 +112,7 @@ def run_property(pid, tier, seed, relock=False, verbose=False):
                 # proof cache: the byte-identical VC (hash of its SMT-LIB text) was discharged when the lock was written; a solver
                 # that runs out of budget on it now (busy machine) does not change its status.  Counted under back end 'lock-cache'.
                 lv = lock.get(o.id if not P.get('kinds') else pid + ':' + o.id)
-                if isinstance(lv, str) and lv == r.h:
+                if isinstance(lv, str) and lv.split('|')[0] == r.h:
                     r.verdict, r.backend, r.reason = 'unsat', 'lock-cache', 'identical VC discharged at lock time; solver budget exhausted in this run'
             by_backend[r.backend] = by_backend.get(r.backend, 0) + 1
             solver_time += r.secs
@@ -129,13 +135,13 @@ def run_property(pid, tier, seed, relock=False, verbose=False):
         if P.get('kinds'):
             lk = {k: v for k, v in lock.items() if not k.startswith(pid + ':')}
             for o, r in discharged:
-                lk[pid + ':' + o.id] = r.h or 'P'
+                lk[pid + ':' + o.id] = (r.h or 'P') + '|' + r.backend
         else:
             gen = {o.id for o in obligations}
             heads = {o.id.split('/')[0] for o in obligations}       # function@case heads verified in this run: their stale ids are dropped
             lk = {k: v for k, v in lock.items() if ':' in k.split('/')[0] or k.split('/')[0] not in heads}
             for o, r in discharged:
-                lk[o.id] = r.h or 'P'
+                lk[o.id] = (r.h or 'P') + '|' + r.backend
         json.dump(lk, open(LOCK, 'w'), indent=0, sort_keys=True)
         print('relocked %s: %d discharged obligations (%d not discharged)' % (pid, len(discharged), len(failed)))
         for o, r in failed:
@@ -397,7 +403,7 @@ def relock_all(seed=0, only=None):
                 if kinds and not any(d['meta']['kind'].startswith(k) for k in kinds):
                     continue
                 if d['verdict'] == 'unsat':
-                    lk[(pid + ':' + d['id']) if kinds else d['id']] = d.get('h') or 'P'
+                    lk[(pid + ':' + d['id']) if kinds else d['id']] = (d.get('h') or 'P') + '|' + d['backend']
                     st[0] += 1
                 else:
                     st[1] += 1
